@@ -96,20 +96,16 @@ impl LibraryPath {
     ///
     /// The first component is the leftmost token separated by `::`.
     pub fn first(&self) -> &str {
-        self.path
-            .split_once(Self::PATH_DELIM)
-            .expect("a valid library path must always have at least one component")
-            .0
+        // a path with a single component contains no delimiter: the component is the whole path
+        self.path.split_once(Self::PATH_DELIM).map(|(first, _)| first).unwrap_or(&self.path)
     }
 
     /// Returns the last component of the path.
     ///
     /// The last component is the rightmost token separated by `::`.
     pub fn last(&self) -> &str {
-        self.path
-            .rsplit_once(Self::PATH_DELIM)
-            .expect("a valid library path must always have at least one component")
-            .1
+        // a path with a single component contains no delimiter: the component is the whole path
+        self.path.rsplit_once(Self::PATH_DELIM).map(|(_, last)| last).unwrap_or(&self.path)
     }
 
     /// Returns the number of components in the path.
